@@ -101,6 +101,83 @@ pub fn c14_doc_with(text: &str, offsets: &[usize], pairs: bool, stored: Option<(
 
 const C14_SYMS: &[&str] = &["a", "\n", "é", "€", "😀"];
 
+/// One character for every UTF-8 lead byte (0xC2..=0xF4), at both ends of the lead byte's range.
+pub fn lead_byte_chars() -> Vec<char> {
+    let mut out: Vec<char> = vec![];
+    let mut seen = std::collections::BTreeSet::new();
+    let mut push = |c: u32, out: &mut Vec<char>| {
+        if let Some(ch) = char::from_u32(c) {
+            if seen.insert(ch) {
+                out.push(ch);
+            }
+        }
+    };
+    // first and last scalar value of every lead byte
+    let mut c = 0x80u32;
+    let mut prev_lead = 0u8;
+    let mut last = 0x80u32;
+    while c <= 0x10FFFF {
+        if let Some(ch) = char::from_u32(c) {
+            let mut b = [0u8; 4];
+            let lead = ch.encode_utf8(&mut b).as_bytes()[0];
+            if lead != prev_lead {
+                if prev_lead != 0 {
+                    push(last, &mut out);
+                }
+                push(c, &mut out);
+                prev_lead = lead;
+            }
+            last = c;
+        }
+        // step: within a lead byte the scalar values are contiguous (surrogates aside)
+        c += if c < 0x800 { 0x40 } else if c < 0x10000 { 0x1000 } else { 0x40000 } / 0x40;
+    }
+    push(last, &mut out);
+    out
+}
+
+/// Lead-byte classes: the width of a character in UTF-16 follows from its UTF-8 lead byte; one
+/// 2-, 3- and 4-byte representative does not reach every branch of a lead-byte classification.
+fn lead_bytes_layer(rep: &mut Report) {
+    let chars = lead_byte_chars();
+    let res: Vec<(u64, u64, Vec<Violation>)> = chars
+        .par_iter()
+        .map(|ch| {
+            let cs = ch.to_string();
+            let syms: [&str; 3] = ["a", "\n", &cs];
+            let docs = words_upto(&syms, 4);
+            let mut viol = vec![];
+            let mut n = 0u64;
+            for d in &docs {
+                if !d.contains(*ch) {
+                    continue;
+                }
+                n += 1;
+                let b = boundaries(d);
+                for (class, detail) in c14_doc(d, &b, true) {
+                    if viol.len() < 2 {
+                        let mut buf = [0u8; 4];
+                        let lead = ch.encode_utf8(&mut buf).as_bytes()[0];
+                        viol.push(Violation { class: class.clone(), key: format!("lead-byte 0x{lead:02X}|{class}"), witness: json!({"text": d, "pairs": true}), detail: format!("character U+{:04X} (UTF-8 lead byte 0x{lead:02X}): {detail}", *ch as u32) });
+                    }
+                }
+            }
+            (docs.len() as u64, n, viol)
+        })
+        .collect();
+    let mut l = Layer { name: "lead-byte-classes".into(), exhaustive: true, ..Default::default() };
+    for (s, n, v) in res {
+        l.states += s;
+        l.executions += n;
+        l.transitions += n;
+        for x in v {
+            rep.violation(x);
+        }
+    }
+    l.bound = format!("{} characters (the first and the last scalar value of every UTF-8 lead byte 0xC2..0xF4) x all documents <= 4 symbols over {{a, LF, that character}} x every boundary x every ordered pair: the full oracle", chars.len());
+    rep.layer(l);
+}
+
 /// Documents reached through edits: every document <= n symbols, every valid single edit
 /// (replacement <= 1 symbol) and, below that, every second edit - applied to the real Vfs; the
 /// STORED line map of the result must satisfy the whole C14 oracle (round trip, monotonicity,
@@ -296,6 +373,7 @@ pub fn run_c14(tier: Tier) -> i32 {
     }
     server_locations_layer(&mut rep, tier);
     after_edits_layer(&mut rep, tier);
+    lead_bytes_layer(&mut rep);
     rep.distinct_nontrivial = nontrivial.load(Ordering::Relaxed);
     rep.distinct_outcomes = 1 + rep.violations.iter().map(|v| v.class.clone()).collect::<std::collections::BTreeSet<_>>().len() as u64;
     rep.rule = "documents enumerated exhaustively; non-trivial = distinct documents containing both a line break and a multi-byte character".into();
@@ -1232,6 +1310,53 @@ fn histories_layer(rep: &mut Report, tier: Tier) {
     });
 }
 
+/// Every UTF-8 lead byte: all single edits of all documents <= 3 symbols over {a, LF, one
+/// character of that lead byte} on the real Vfs (text and stored line map).
+fn c13_lead_bytes_layer(rep: &mut Report) {
+    let chars = lead_byte_chars();
+    let res: Vec<(u64, Vec<Violation>)> = chars
+        .par_iter()
+        .map(|ch| {
+            let cs = ch.to_string();
+            let syms: [&str; 3] = ["a", "\n", &cs];
+            let docs = words_upto(&syms, 3);
+            let reps = words_upto(&syms, 1);
+            let mut viol = vec![];
+            let mut n = 0u64;
+            for d in docs.iter().filter(|d| d.contains(*ch)) {
+                let rd = RefDoc::new(d.clone());
+                let pos = rd.valid_positions();
+                for (i, (ps, _)) in pos.iter().enumerate() {
+                    for (pe, _) in pos.iter().skip(i) {
+                        for r in &reps {
+                            n += 1;
+                            let act = Act::Edit { start: *ps, end: *pe, text: r.clone() };
+                            if let Some((class, detail)) = c13_check(d, &act) {
+                                if viol.len() < 2 {
+                                    let mut buf = [0u8; 4];
+                                    let lead = ch.encode_utf8(&mut buf).as_bytes()[0];
+                                    viol.push(Violation { class: class.clone(), key: format!("lead-byte 0x{lead:02X}|{class}"), witness: json!({"before": d, "action": act_json(&act)}), detail: format!("character U+{:04X} (UTF-8 lead byte 0x{lead:02X}): {detail}", *ch as u32) });
+                                }
+                            }
+                        }
+                    }
+                }
+            }
+            (n, viol)
+        })
+        .collect();
+    let mut l = Layer { name: "lead-byte-classes".into(), states: chars.len() as u64, exhaustive: true, ..Default::default() };
+    for (n, v) in res {
+        l.executions += n;
+        l.transitions += n;
+        for x in v {
+            rep.violation(x);
+        }
+    }
+    l.bound = format!("{} characters (first and last scalar value of every UTF-8 lead byte) x all documents <= 3 symbols over {{a, LF, that character}} x every valid single edit with a replacement <= 1 symbol, on the real Vfs: text and stored line map against the reference client", chars.len());
+    rep.layer(l);
+}
+
 pub fn run_c13(tier: Tier) -> i32 {
     let mut rep = Report::new("C13", tier);
     let max_syms = tier.pick(4usize, 5usize);
@@ -1260,6 +1385,7 @@ pub fn run_c13(tier: Tier) -> i32 {
     disk_layer(&mut rep, tier);
     overlong_layer(&mut rep, tier);
     histories_layer(&mut rep, tier);
+    c13_lead_bytes_layer(&mut rep);
     rep.distinct_nontrivial = crlf.load(Ordering::Relaxed).min(unique);
     rep.distinct_nontrivial = unique.saturating_sub(pow(1, 1));
     rep.distinct_outcomes = 1 + rep.violations.iter().map(|v| v.class.clone()).collect::<std::collections::BTreeSet<_>>().len() as u64;
